@@ -431,25 +431,75 @@ mod v_iface_ingress6 {
         unknown_nxt_hdr_case(true);
     }
 
-    // C03: arbitrary bytes as an IPv6 packet (incl. hop-by-hop options) never panic
-    // @harness props=C03 cfg=KI6 tier=q to=1800 mem=8 unwind=24 covers=2 funcs=InterfaceInner::process_ip;InterfaceInner::process_ipv6;InterfaceInner::process_hopbyhop;InterfaceInner::process_icmpv6;InterfaceInner::process_ndisc;InterfaceInner::process_udp;InterfaceInner::process_tcp;wire::Ipv6Repr::parse;wire::Icmpv6Repr::parse;wire::NdiscRepr::parse bounds=raw-IP_medium;_IPv6_header_with_any_next_header,_hop_limit,_source;_destination_=_own_address;_24_arbitrary_payload_bytes,_payload_length_0..=24
+    // C03: arbitrary bytes as an IPv6 packet never panic.  One harness per next-header octet (see ipv4_free_case in
+    // iface_ingress.rs: a symbolic next header explores every upper-layer parser and did not finish in 30 minutes).
+    // ICMPv6 (58) is the subject of ipv6_addr_icmp* (concrete type octet each) and of the NDISC harnesses of C16.
     #[cfg(feature = "socket-tcp")]
-    #[kani::proof]
-    pub(crate) fn ipv6_bytes_free() {
+    fn ipv6_free_case(nh: u8) {
         env6_tcp!(iface, sockets, th);
-        let src: [u8; 16] = kani::any();
+        // IPv6 header concrete (to 2001:db8::1 or ff02::1 from a source with 4 symbolic octets; hop limit free): a
+        // version with traffic class, flow label and payload length free as well did not finish in 15 minutes for any
+        // next header.  The 24 octets after the header are free.
+        let src = any_src();
+        kani::assume(src != LOOPBACK); // known finding F-C10-ipv6-loopback-source-echo / F-C11-ipv6-loopback-from-network
         let mut b: [u8; 64] = kani::any();
-        let plen = any_le(24);
-        let nh: u8 = kani::any();
-        let hop: u8 = kani::any();
         let to_mcast: bool = kani::any();
-        ipv6_header(&mut b, plen, nh, hop, &src, if to_mcast { &ALL_NODES } else { &GL });
-        let reply = iface.inner.process_ip(&mut sockets, PacketMeta::default(), &b[..40 + plen], &mut iface.fragments);
+        let hop = b[7];
+        ipv6_header(&mut b, 24, nh, hop, &src, if to_mcast { &ALL_NODES } else { &GL });
+        let reply = iface.inner.process_ip(&mut sockets, PacketMeta::default(), &b[..], &mut iface.fragments);
+        kani::cover!(reply.is_some(), "a reply was produced");
         if let Some(p) = &reply {
             crate::vassert!(is_own(&reply_src(p)), "prop:c10_reply_source_is_own_unicast_address");
         }
-        kani::cover!(reply.is_some(), "a reply was produced");
-        kani::cover!(nh == 0 && reply.is_some(), "hop-by-hop header processed");
+    }
+
+    // @harness props=C03,C10 cfg=KI6t tier=q to=1500 mem=12 unwind=24 opts=nomem covers=1 funcs=InterfaceInner::process_ip;InterfaceInner::process_ipv6;InterfaceInner::process_hopbyhop;InterfaceInner::process_nxt_hdr;InterfaceInner::process_tcp;InterfaceInner::icmpv6_reply bounds=raw-IP_medium,_one_listening_TCP_socket;_own_fe80::1_and_2001:db8::1;_concrete_40-octet_header_(hop_limit_free),_source_with_4_symbolic_octets,_destination_2001:db8::1_or_ff02::1;_24_free_octets_after_the_header;_next_header_0:_hop-by-hop_options_header_with_free_length_and_option_octets_and_free_inner_next_header
+    #[cfg(feature = "socket-tcp")]
+    #[kani::proof]
+    pub(crate) fn ipv6_bytes_free() {
+        ipv6_free_case(0);
+    }
+
+    // @harness props=C03,C10 cfg=KI6t tier=q to=1500 mem=12 unwind=24 opts=nomem covers=1 funcs=InterfaceInner::process_ip;InterfaceInner::process_ipv6;InterfaceInner::process_hopbyhop;InterfaceInner::process_nxt_hdr;InterfaceInner::process_tcp;InterfaceInner::icmpv6_reply bounds=raw-IP_medium,_one_listening_TCP_socket;_own_fe80::1_and_2001:db8::1;_concrete_40-octet_header_(hop_limit_free),_source_with_4_symbolic_octets,_destination_2001:db8::1_or_ff02::1;_24_free_octets_after_the_header;_next_header_6_(TCP):_every_TCP_header_octet_free
+    #[cfg(feature = "socket-tcp")]
+    #[kani::proof]
+    pub(crate) fn ipv6_bytes_free_tcp() {
+        ipv6_free_case(6);
+    }
+
+    // @harness props=C03,C10 cfg=KI6t tier=q to=900 mem=8 unwind=24 opts=nomem covers=1 funcs=InterfaceInner::process_ip;InterfaceInner::process_ipv6;InterfaceInner::process_hopbyhop;InterfaceInner::process_nxt_hdr;InterfaceInner::process_tcp;InterfaceInner::icmpv6_reply bounds=raw-IP_medium,_one_listening_TCP_socket;_own_fe80::1_and_2001:db8::1;_concrete_40-octet_header_(hop_limit_free),_source_with_4_symbolic_octets,_destination_2001:db8::1_or_ff02::1;_24_free_octets_after_the_header;_next_header_17_(UDP,_no_UDP_socket)
+    #[cfg(feature = "socket-tcp")]
+    #[kani::proof]
+    pub(crate) fn ipv6_bytes_free_udp() {
+        ipv6_free_case(17);
+    }
+
+    // @harness props=C03,C10 cfg=KI6t tier=q to=900 mem=8 unwind=24 opts=nomem covers=1 funcs=InterfaceInner::process_ip;InterfaceInner::process_ipv6;InterfaceInner::process_hopbyhop;InterfaceInner::process_nxt_hdr;InterfaceInner::process_tcp;InterfaceInner::icmpv6_reply bounds=raw-IP_medium,_one_listening_TCP_socket;_own_fe80::1_and_2001:db8::1;_concrete_40-octet_header_(hop_limit_free),_source_with_4_symbolic_octets,_destination_2001:db8::1_or_ff02::1;_24_free_octets_after_the_header;_next_header_44_(fragment_header,_not_supported)
+    #[cfg(feature = "socket-tcp")]
+    #[kani::proof]
+    pub(crate) fn ipv6_bytes_free_frag() {
+        ipv6_free_case(44);
+    }
+
+    // @harness props=C03,C10 cfg=KI6t tier=q to=900 mem=8 unwind=24 opts=nomem covers=1 funcs=InterfaceInner::process_ip;InterfaceInner::process_ipv6;InterfaceInner::process_hopbyhop;InterfaceInner::process_nxt_hdr;InterfaceInner::process_tcp;InterfaceInner::icmpv6_reply bounds=raw-IP_medium,_one_listening_TCP_socket;_own_fe80::1_and_2001:db8::1;_concrete_40-octet_header_(hop_limit_free),_source_with_4_symbolic_octets,_destination_2001:db8::1_or_ff02::1;_24_free_octets_after_the_header;_next_header_43_(routing_header)
+    #[cfg(feature = "socket-tcp")]
+    #[kani::proof]
+    pub(crate) fn ipv6_bytes_free_routing() {
+        ipv6_free_case(43);
+    }
+
+    // @harness props=C03,C10 cfg=KI6t tier=t to=900 mem=8 unwind=24 opts=nomem covers=1 funcs=InterfaceInner::process_ip;InterfaceInner::process_ipv6;InterfaceInner::process_hopbyhop;InterfaceInner::process_nxt_hdr;InterfaceInner::process_tcp;InterfaceInner::icmpv6_reply bounds=raw-IP_medium,_one_listening_TCP_socket;_own_fe80::1_and_2001:db8::1;_concrete_40-octet_header_(hop_limit_free),_source_with_4_symbolic_octets,_destination_2001:db8::1_or_ff02::1;_24_free_octets_after_the_header;_next_header_60_(destination_options)
+    #[cfg(feature = "socket-tcp")]
+    #[kani::proof]
+    pub(crate) fn ipv6_bytes_free_dstopts() {
+        ipv6_free_case(60);
+    }
+
+    // @harness props=C03,C10 cfg=KI6t tier=q to=900 mem=8 unwind=24 opts=nomem covers=1 funcs=InterfaceInner::process_ip;InterfaceInner::process_ipv6;InterfaceInner::process_hopbyhop;InterfaceInner::process_nxt_hdr;InterfaceInner::process_tcp;InterfaceInner::icmpv6_reply bounds=raw-IP_medium,_one_listening_TCP_socket;_own_fe80::1_and_2001:db8::1;_concrete_40-octet_header_(hop_limit_free),_source_with_4_symbolic_octets,_destination_2001:db8::1_or_ff02::1;_24_free_octets_after_the_header;_next_header_253_(unknown)
+    #[cfg(feature = "socket-tcp")]
+    #[kani::proof]
+    pub(crate) fn ipv6_bytes_free_other() {
+        ipv6_free_case(253);
     }
 
     // @harness props=C11 kind=mustfail cfg=KI6 tier=q to=900 mem=8 unwind=20 opts=nomem
